@@ -177,6 +177,9 @@ func (p *rawParser) num() (*Node, error) {
 	if p.b[p.i] == '0' {
 		p.i++
 	} else if digits() == 0 {
+		if p.i == s+1 && p.b[s] == '-' {
+			return nil, fmt.Errorf("lone minus sign at offset %d", s)
+		}
 		return nil, fmt.Errorf("bad number at offset %d", s)
 	}
 	if p.i < len(p.b) && p.b[p.i] == '.' {
@@ -289,7 +292,7 @@ func ErrClass(err error) string {
 	}
 	m := err.Error()
 	for _, c := range [][2]string{{"bare control character", "control-char-in-string"}, {"bad escape", "bad-escape"}, {"bad \\u escape", "bad-escape"}, {"lone surrogate", "lone-surrogate"},
-		{"bad number", "bad-number"}, {"unterminated", "unterminated"}, {"unexpected end", "unterminated"}, {"bad literal", "bad-literal"}, {"trailing data", "trailing-data"}, {"duplicate member", "duplicate-member"},
+		{"lone minus", "lone-minus"}, {"bad number", "bad-number"}, {"unterminated", "unterminated"}, {"unexpected end", "unterminated"}, {"bad literal", "bad-literal"}, {"trailing data", "trailing-data"}, {"duplicate member", "duplicate-member"},
 		{"expected ',' or", "missing-separator"}, {"expected member name", "bad-member"}, {"expected ':'", "bad-member"}, {"unexpected byte", "unexpected-byte"}} {
 		if len(m) >= len(c[0]) && contains(m, c[0]) {
 			return c[1]
